@@ -26,7 +26,9 @@
 (*   seen  : the same door was used immediately before, in the same process   *)
 (*           (and, for the message doors, on the same message object):        *)
 (*           with the same pair under the other curve, or with the intact     *)
-(*           point the pair was made from under that point's own curve        *)
+(*           point the pair was made from under that point's own curve; for   *)
+(*           the list door also: that intact point directly before the pair   *)
+(*           in the same list                                                 *)
 (*   reuse : (receiver doors) the object decoded into was used before: it is  *)
 (*           bound to curve b because it was decoded from JSON naming b,      *)
 (*           from legacy JSON / Gob while b was the default, made by the      *)
@@ -111,7 +113,9 @@ Fresh == [kind |-> "fresh", how |-> "-", curve |-> "-"]
 PreStates(d) ==
   {Fresh}
   \cup { [kind |-> "seen", how |-> h, curve |-> "-"] : h \in SeenWays }
-  \cup IF HasReceiver(d) THEN { [kind |-> "reuse", how |-> h, curve |-> c] : h \in BindingWays, c \in Curves } ELSE {}
+  \cup (IF HasReceiver(d) THEN { [kind |-> "reuse", how |-> h, curve |-> c] : h \in BindingWays, c \in Curves } ELSE {})
+  \* the list door: "before" can also be an earlier position of the same list (same call, same stated curve)
+  \cup (IF d = "crypto.UnFlattenECPoints" THEN { [kind |-> "seen", how |-> "intact_point_earlier_in_the_list", curve |-> "-"] } ELSE {})
 
 Cases == { c \in [door : Doors, in : Inputs] : Expressible(c.door, c.in.class) }
 
